@@ -31,6 +31,7 @@ func (fr *Frame) prepare() {
 	}
 	sort.SliceStable(allocs, func(i, j int) bool { return allocs[i].Pos() < allocs[j].Pos() })
 	fr.allocOrder = allocs
+	fr.aliasAlloc = aliasAllocs(fr.fn, allocs)
 }
 
 func (e *Engine) newVC(name string, props []string) *VC {
